@@ -23,7 +23,7 @@ func acHeader(k string) bool { return strings.HasPrefix(k, "Access-Control-") }
 // only atoms and value tags the rules understand.
 func requestTableGuards(ctx *Ctx, r *Result) (*RequestTable, bool) {
 	rt := ctx.RequestTable()
-	r.rule("R0.1", "request path is loop-free and fully summarised (no unknown instruction, callee, atom or value tag)", 1)
+	r.rule("R0.1", "request path is loop-free and fully summarised (no unknown instruction, callee, header name or value tag; a branch condition the rules have no name for is kept as a free atom: both its outcomes are paths, and every rule holds on each)", 1)
 	if rt.Closure == nil || len(rt.Problems) > 0 {
 		r.undecided("R0.1", "request-closure", strings.Join(rt.Problems, "; "))
 		return rt, false
@@ -218,6 +218,8 @@ func checkC03(ctx *Ctx) *Result {
 		}
 	}
 	checkFirst(ctx, r)
+	// "preflight responses" are the handler-free paths: which requests take them
+	r.share(checkC11(ctx), map[string]string{"R11.2": "handler-free paths ⇔ OPTIONS ∧ found(Origin) ∧ found(ACRM) on a configured middleware, the method compared byte for byte (what this property calls a preflight response is what the middleware answers itself)"}, nil)
 	// "allowed origin" rests on the origin tree: its structural necessary conditions
 	treeRules(ctx, r)
 	// "Max-Age carries exactly the configured value": what cfg.acma holds is
